@@ -20,6 +20,56 @@ COLS = ["seqid", "source", "featuretype", "start", "end", "score", "strand", "fr
 EXEMPTABLE = ["seqid", "source", "featuretype", "score", "strand", "frame"]
 
 
+def c_first_id(f):
+    """a callable id_spec: the first value of the ID (GFF3) / eid (GTF) attribute"""
+    for k in ("ID", "eid"):
+        try:
+            return f.attributes[k][0]
+        except (KeyError, IndexError):
+            pass
+    return None
+
+
+dbside.CALLZOO.setdefault("first_id", c_first_id)     # used by the 'objects' scenario only (not in the model's zoo)
+
+COLUMN_NAMED = ["score", "source", "strand", "end", "start", "frame", "seqid", "featuretype"]
+
+
+def add_column_named(rc, arrivals):
+    """attribute KEYS that are also names of GFF columns (score=high;source=ensembl): two names per case, carried by
+    about half of the arrivals, so that colliding features both have them"""
+    names = rc.sample(COLUMN_NAMED, 2)
+    for a in arrivals:
+        for nm in names:
+            if rc.random() < 0.5:
+                vals = [rc.choice(["u", "v", "w", "z", "hi", "lo"]) for _ in range(rc.choice([1, 1, 2]))]
+                a["attrs"][nm] = list(dict.fromkeys(vals))
+    return arrivals
+
+
+def rand_family(r, n0, n1, nkeys):
+    """arrivals for the history 'merge import, delete, merge update': per key three column variants; every arrival
+    takes one of them, so that arrivals of the second phase meet '<key>_n' siblings with equal columns.
+    returns (arrivals, phase)"""
+    variants = {}
+    out = []
+    for i in range(n0 + n1):
+        k = "k%d" % r.randrange(nkeys)
+        if k not in variants:
+            b = {"seqid": "chr1", "source": "A", "featuretype": "exon", "start": 10 + 7 * len(variants), "end": 500,
+                 "score": ".", "strand": "+", "frame": "."}
+            variants[k] = [dict(b), dict(b, start=b["start"] + 1), dict(b, strand="-", source=r.choice(["A", "B"]))]
+        if r.random() < 0.08 and out:
+            k = "%s_%d" % (k, r.randrange(1, 3))          # an arrival whose own key is a generated '<key>_n'
+            variants.setdefault(k, variants[k.rsplit("_", 1)[0]])
+        cols = dict(r.choice(variants[k]))
+        attrs = {}
+        for a in r.sample(["Name", "Note", "tag"], r.randrange(0, 3)):
+            attrs[a] = list(dict.fromkeys(r.choice(["u", "v", "w", "z"]) for _ in range(r.choice([1, 1, 2]))))
+        out.append({"key": k, "cols": cols, "attrs": attrs, "parents": r.sample(["P1", "P2", "P3"], r.choice([0, 1, 1, 2]))})
+    return out, [0] * n0 + [1] * n1
+
+
 def rand_arrivals(r, n, nkeys, fmt):
     """arrivals colliding on few keys; columns drawn from 2 alternatives so that groups of equal columns occur"""
     out = []
@@ -64,9 +114,12 @@ def lines_of(arrivals, fmt):
 EVER = {}          # id -> every Parent link any arrival filed under that id ever carried (reset per case)
 
 
-def reference(arrivals, strategy, force, fmt, stored=None, counters=None, dupmap=None):
-    """the outcome the property prescribes.  returns ('error'|'abort'|'ok', stored) with
-    stored: id -> {cols, attrs: k -> set, links: set(parent ids), exempt: col -> set}"""
+def reference(arrivals, strategy, force, fmt, stored=None, counters=None, dupmap=None, after_delete=False):
+    """the outcome the property prescribes.  returns ('error'|'abort'|'ambiguous'|'ok', stored) with
+    stored: id -> {cols, attrs: k -> set, links: set(parent ids), exempt: col -> set}
+    after_delete: features were deleted from `stored` - only then can TWO members of a key's family have columns equal
+    to a newcomer's (the deleted key was filed again with the columns of a sibling); which of them the union goes to
+    is not prescribed: 'ambiguous'"""
     stored = stored if stored is not None else {}
     counters = counters if counters is not None else {}
     dupmap = dupmap if dupmap is not None else {}
@@ -113,9 +166,13 @@ def reference(arrivals, strategy, force, fmt, stored=None, counters=None, dupmap
             continue
         # merge
         target = None
-        for cand in [k] + dupmap.get(k, []):
+        nmatch = 0
+        for cand in list(dict.fromkeys([k] + dupmap.get(k, []))):
             if cand in stored and all(str(stored[cand]["cols"][c]) == str(a["cols"][c]) for c in COLS if c not in force):
                 target = cand
+                nmatch += 1
+        if after_delete and nmatch > 1:
+            return "ambiguous", stored
         if target is None:
             nk = incr(k)
             if nk in stored:
@@ -160,8 +217,9 @@ def compare(status, want, rep, db, fmt, force):
             probs.append(("merge_strategy='error' did not abort on a duplicate key", rep, None,
                           "error_strategy_did_not_abort"))
         return probs
-    if status == "abort":
-        return probs                      # '<key>_n' already taken: outcome not prescribed (the code aborts)
+    if status in ("abort", "ambiguous"):
+        return probs                      # '<key>_n' already taken: outcome not prescribed (the code aborts);
+                                          # two family members with the newcomer's columns (after a delete): not prescribed
     if db is None:
         probs.append(("create_db raised (%s) although the strategy prescribes an outcome" % rep, rep, None,
                       "import_raised"))
@@ -231,7 +289,17 @@ def execute(ctx, case):
         return None
     if p0 != "merge":
         dm = {}       # the duplicates table only records what the 'merge' strategy files
-    status, want = reference(arrivals[cut:], strategy, force, fmt, st, cn, dm)
+    # "delete": keys removed with FeatureDB.delete between the import and the update.  The reference forgets the
+    # feature and its links - nothing else: the '<key>_n' entries filed for a deleted key stay what they are, features
+    # of that key's family that a later arrival with equal columns is merged into
+    deleted = [k for k in case.get("delete", []) if k in st]
+    for k in deleted:
+        st.pop(k)
+        EVER.pop(k, None)
+    if deleted:
+        db.delete(list(deleted) if len(deleted) > 1 or case.get("delete_by") != "feature" else db[deleted[0]],
+                  make_backup=False)
+    status, want = reference(arrivals[cut:], strategy, force, fmt, st, cn, dm, after_delete=bool(deleted))
     path2 = dbside.write_lines(os.path.join(ctx.scratch, "c05b." + ext), lines[cut:])
     try:
         with warnings.catch_warnings():
@@ -242,7 +310,89 @@ def execute(ctx, case):
         rep = "err " + dbside.err_name(ex)
         db = None
     return {"status": status, "want": want, "db": db, "rep": rep, "cfg": cfg, "cfg0": cfg0, "rep0": rep0,
-            "first": lines[:cut], "rest": lines[cut:]}
+            "first": lines[:cut], "rest": lines[cut:], "deleted": deleted}
+
+
+def plan_selection(plan, n):
+    """the positions (into the case's lines) a plan of an 'objects' case imports, in import order, and the cut
+    between create_db and update (None: create_db alone)"""
+    sel = list(range(n))
+    if plan.get("reverse"):
+        sel.reverse()
+    keep = plan.get("keep", "all")
+    if len(sel) > 1:
+        sel = {"all": sel, "skip_first": sel[1:], "last_only": sel[-1:], "second_half": sel[len(sel) // 2:]}[keep]
+    cut = None
+    if plan.get("via") == "create_db+update" and len(sel) >= 2:
+        cut = min(len(sel) - 1, max(1, int(len(sel) * plan.get("cut_frac", 0.5))))
+    return sel, cut
+
+
+def execute_objects(ctx, case):
+    """ONE list of Feature objects (the lines of the case parsed once, by DataIterator) handed to several fresh
+    databases in turn - "plans": each plan imports the objects (all of them, or reversed / only the later ones) through
+    create_db or create_db + update.  Every database has to hold what the strategy prescribes for the features IT was
+    given: what an earlier import did with the caller's objects must not show.  Only stored results are judged (the
+    objects themselves are not inspected).  returns a list of (plan, execute()-like dict | None)"""
+    import warnings
+    import gffutils
+    lines, arrivals, fmt = case["input"], case["records"], case["fmt"]
+    cfg = dbside.Cfg.from_json(case["config"])
+    strategy, force = cfg.strategy, cfg.force
+    path = dbside.write_lines(os.path.join(ctx.scratch, "c05o." + ("gff3" if fmt == "gff3" else "gtf")), lines)
+    objs = list(gffutils.DataIterator(path))
+    if len(objs) != len(lines):
+        return []
+    outs = []
+    for plan in case["plans"]:
+        EVER.clear()
+        sel, cut = plan_selection(plan, len(lines))
+        arr = [arrivals[i] for i in sel]
+        feats = [objs[i] for i in sel]
+        if cut is None:
+            status, want = reference(arr, strategy, force, fmt)
+            db, rep = dbside.py_create(feats, cfg)
+            outs.append((plan, {"status": status, "want": want, "db": db, "rep": rep, "cfg": cfg,
+                                "lines": [lines[i] for i in sel], "ever": dict(EVER)}))
+            continue
+        st = {}; cn = {}; dm = {}
+        p0 = "merge" if strategy == "merge" else "create_unique"
+        status0, _ = reference(arr[:cut], p0, force, fmt, st, cn, dm)
+        cfg0 = dbside.Cfg(idspec=cfg.idspec, strategy=p0, force=force if p0 == "merge" else [], disG=True, disT=True)
+        db, rep0 = dbside.py_create(feats[:cut], cfg0)
+        if status0 != "ok":
+            outs.append((plan, None))
+            continue
+        if db is None:
+            # the preparatory import is itself prescribed (status0 == ok): its failure is a failure of that import
+            outs.append((plan, {"status": status0, "want": st, "db": None, "rep": rep0, "cfg": cfg0,
+                                "lines": [lines[i] for i in sel[:cut]], "ever": dict(EVER)}))
+            continue
+        if p0 != "merge":
+            dm = {}
+        status, want = reference(arr[cut:], strategy, force, fmt, st, cn, dm)
+        try:
+            with warnings.catch_warnings():
+                warnings.simplefilter("ignore")
+                db.update(feats[cut:], **cfg.update_kwargs())
+            rep = "ok"
+        except Exception as ex:
+            rep = "err " + dbside.err_name(ex)
+            db = None
+        outs.append((plan, {"status": status, "want": want, "db": db, "rep": rep, "cfg": cfg, "cfg0": cfg0, "rep0": rep0,
+                            "first": [lines[i] for i in sel[:cut]], "rest": [lines[i] for i in sel[cut:]],
+                            "ever": dict(EVER)}))
+    return outs
+
+
+def check_objects(ctx, case, res):
+    """judge every database of an 'objects' case; returns execute_objects' list"""
+    outs = execute_objects(ctx, case)
+    for n, (plan, ex) in enumerate(outs):
+        if ex is not None:
+            EVER.clear(); EVER.update(ex["ever"])
+            check_outcome(dict(case, database=n, plan=plan), ex, res)
+    return outs
 
 
 def check_outcome(case, ex, res):
@@ -271,6 +421,9 @@ def judge(ctx, case):
     res = common.Result("C05")
     if len(case["input"]) != len(case["records"]):
         return res
+    if case["scenario"] == "objects":
+        check_objects(ctx, case, res)
+        return res
     ex = execute(ctx, case)
     if ex is not None:
         check_outcome(case, ex, res)
@@ -283,14 +436,21 @@ def run(ctx):
     r = ctx.rng("c05")
     res.rule = ("2-7 arrivals over 1-2 keys with equal/different columns and attribute sets, Parent links, arrivals "
                 "whose own key is an earlier '<key>_n'; all five strategies; all subsets (<= 2) of force_merge_fields; "
-                "GFF3 and GTF importers; create_db and update. non-trivial = distinct input with >= 1 collision")
+                "GFF3 and GTF importers; create_db and update; attribute keys named like GFF columns; history merge import "
+                "-> delete(key or '<key>_n' sibling) -> update with arrivals of that family; one list of Feature objects "
+                "imported into 2-3 fresh databases in turn (create_db / create_db + update, also reversed or shortened). "
+                "non-trivial = distinct input with >= 1 collision")
     cmds, exp, tags = [], [], []
+    rc = ctx.rng("c05", "column-named attributes")
     n = 400 if not ctx.thorough else 6000
     for i in range(n):
         fmt = "gff3" if r.random() < 0.7 else "gtf"
         strategy = r.choice(["error", "warning", "replace", "create_unique", "merge", "merge", "merge"])
         force = r.sample(EXEMPTABLE, r.choice([0, 0, 1, 2])) if strategy == "merge" else []
         arrivals = rand_arrivals(r, r.randrange(2, 8), r.choice([1, 1, 2]), fmt)
+        if rc.random() < 0.35:
+            add_column_named(rc, arrivals)
+            res.count("attribute_keys_named_like_columns")
         use_update = r.random() < 0.3
         idspec = dbside.IdSpec() if fmt == "gff3" else dbside.IdSpec("L", [("a", "eid")], form="str")
         cfg = dbside.Cfg(idspec=idspec, strategy=strategy, force=force, disG=True, disT=True)
@@ -323,6 +483,90 @@ def run(ctx):
             cmds.append("dump"); exp.append(dbside.dump(db)); tags.append(("tables", repr(inp)))
         if len(res.samples) < 3 and status == "ok":
             res.sample(inp)
+    # history: merge import -> FeatureDB.delete of a key (the plain key or one of its '<key>_n' siblings) -> update with
+    # arrivals for that key's family -----------------------------------------------------------------------------------
+    rdel = ctx.rng("c05", "delete")
+    for i in range(120 if not ctx.thorough else 1500):
+        fmt = "gff3" if rdel.random() < 0.75 else "gtf"
+        strategy = rdel.choice(["merge"] * 5 + ["create_unique", "replace"])
+        force = rdel.sample(EXEMPTABLE, rdel.choice([0, 0, 0, 1])) if strategy == "merge" else []
+        arrivals, phase = rand_family(rdel, rdel.randrange(2, 5), rdel.randrange(2, 5), rdel.choice([1, 1, 2]))
+        if rdel.random() < 0.3:
+            add_column_named(rdel, arrivals)
+        idspec = dbside.IdSpec() if fmt == "gff3" else dbside.IdSpec("L", [("a", "eid")], form="str")
+        cfg = dbside.Cfg(idspec=idspec, strategy=strategy, force=force, disG=True, disT=True)
+        lines = lines_of(arrivals, fmt)
+        cut = phase.count(0)
+        EVER.clear()
+        st0 = {}
+        status0, _ = reference(arrivals[:cut], "merge", force, fmt, st0, {}, {})
+        if status0 != "ok":
+            continue
+        plain = sorted({a["key"] for a in arrivals[:cut]})
+        sibs = sorted(set(st0) - set(plain))
+        victims = [rdel.choice(plain)] if (not sibs or rdel.random() < 0.7) else [rdel.choice(sibs)]
+        if rdel.random() < 0.15 and len(st0) > 1:
+            victims = sorted(set(victims + [rdel.choice(sorted(st0))]))
+        case = mk_case(lines, arrivals, cfg, fmt, phase=phase)
+        case.update(scenario="merge_import+delete+update", phase0="merge", delete=victims,
+                    delete_by=rdel.choice(["id", "feature"]))
+        inp = {"lines": lines, "merge_strategy": strategy, "force_merge_fields": force, "via_update": True,
+               "deleted_after_import": victims}
+        res.evaluations += 1
+        res.count("%s_%s_merge_import_delete_update" % (fmt, strategy))
+        res.nontriv(tuple(lines) + (strategy, tuple(force), tuple(victims)))
+        ex = execute(ctx, case)
+        if ex is None:
+            continue
+        res.count("delete_history_outcome_" + ex["status"])
+        cmds.append(dbside.cmd_create(ex["first"], ex["cfg0"])); exp.append(ex["rep0"]); tags.append(("create_db", repr(inp)))
+        cmds.append("delete " + dbside.enc_list(ex["deleted"])); exp.append("ok"); tags.append(("delete", repr(inp)))
+        cmds.append(dbside.cmd_update(ex["rest"], cfg)); exp.append(ex["rep"]); tags.append(("FeatureDB.update", repr(inp)))
+        check_outcome(case, ex, res)
+        if ex["db"] is not None and ex["status"] == "ok":
+            cmds.append("dump"); exp.append(dbside.dump(ex["db"])); tags.append(("tables", repr(inp)))
+
+    # ONE list of Feature objects imported into several fresh databases in turn ---------------------------------------
+    robj = ctx.rng("c05", "objects")
+    for i in range(150 if not ctx.thorough else 1500):
+        fmt = "gff3" if robj.random() < 0.75 else "gtf"
+        strategy = robj.choice(["merge"] * 6 + ["create_unique", "replace", "warning", "error"])
+        force = robj.sample(EXEMPTABLE, robj.choice([0, 0, 1])) if strategy == "merge" else []
+        arrivals = rand_arrivals(robj, robj.randrange(2, 7), robj.choice([1, 1, 2]), fmt)
+        if robj.random() < 0.25:
+            add_column_named(robj, arrivals)
+        idspec = dbside.IdSpec() if fmt == "gff3" else dbside.IdSpec("L", [("a", "eid")], form="str")
+        if robj.random() < 0.4:
+            # a callable id_spec (the first ID / eid value): the key does not depend on how many values the attribute has
+            idspec = dbside.IdSpec("L", [("c", "first_id")], form="callable")
+        cfg = dbside.Cfg(idspec=idspec, strategy=strategy, force=force, disG=True, disT=True)
+        lines = lines_of(arrivals, fmt)
+        via = lambda: robj.choice(["create_db", "create_db", "create_db+update"])
+        plans = [{"via": via(), "cut_frac": robj.random()}, {"via": via(), "cut_frac": robj.random()}]
+        if robj.random() < 0.85:
+            # a database that is given only some of the objects (which an earlier import may have met as newcomers)
+            plans.append({"via": via(), "cut_frac": robj.random(), "reverse": robj.random() < 0.3,
+                          "keep": robj.choice(["skip_first", "skip_first", "last_only", "second_half", "all"])})
+        case = mk_case(lines, arrivals, cfg, fmt)
+        case.update(scenario="objects", plans=plans)
+        inp = {"lines": lines, "merge_strategy": strategy, "force_merge_fields": force, "feature_objects": True,
+               "id_spec": idspec.describe()}
+        res.evaluations += 1
+        res.count("%s_%s_objects" % (fmt, strategy))
+        for plan, ex in check_objects(ctx, case, res):
+            if ex is None or idspec.form == "callable":
+                continue        # first_id is not in the model's callable zoo: oracle only
+            pinp = repr(dict(inp, plan=plan))
+            if "first" in ex:
+                cmds.append(dbside.cmd_create(ex["first"], ex["cfg0"])); exp.append(ex["rep0"])
+                tags.append(("create_db (objects)", pinp))
+                cmds.append(dbside.cmd_update(ex["rest"], cfg)); exp.append(ex["rep"]); tags.append(("FeatureDB.update", pinp))
+            else:
+                cmds.append(dbside.cmd_create(ex["lines"], ex["cfg"])); exp.append(ex["rep"])
+                tags.append(("create_db (objects)", pinp))
+            if ex["db"] is not None and ex["status"] == "ok":
+                cmds.append("dump"); exp.append(dbside.dump(ex["db"])); tags.append(("tables", pinp))
+
     out = ctx.model(cmds)
     if out is not None:
         skip = False
@@ -339,10 +583,18 @@ def run(ctx):
                     same = canon(a) == canon(b)
                 if not same:
                     res.corr_disagreements.append((comp, inp[:900], m[:700], e[:700]))
+            elif comp == "create_db (objects)":
+                # the model imports the LINES of the objects: the reported dialect (key order, votes) is not compared
+                if m.split(" ")[0] != e.split(" ")[0] or (m.startswith("err") and m != e):
+                    res.corr_disagreements.append((comp, inp[:900], m[:300], e[:300]))
             elif m != e:
                 res.corr_disagreements.append((comp, inp[:900], m[:300], e[:300]))
     res.assumptions = ["values of exempt columns contain no comma", "ids contain no tab",
-                       "when the generated '<key>_n' is already taken the import aborts (outcome not prescribed)"]
+                       "when the generated '<key>_n' is already taken the import aborts (outcome not prescribed)",
+                       "after FeatureDB.delete a key can be filed again with the columns of one of its '<key>_n' siblings; "
+                       "a later arrival with these columns then has two merge candidates and which of them receives the "
+                       "union is decided by the order of a Python set (create.py _candidate_merges: list(set(...))): "
+                       "outcome not prescribed, not judged and not compared with the model"]
     common.shrink_first_failure(res, lambda case: judge(ctx, case))
     return res
 
